@@ -1,4 +1,5 @@
 import ZapVerif.Proofs.EntryWF
+import ZapVerif.Gen.JsonAdd
 /-! # C01 — the JSON encoder always emits one well-formed JSON object per entry, on one line
 
 Model: `Model/Esc.lean` (escaping), `Model/Enc.lean` (the streaming encoder over call trees), `Model/Entry.lean`
@@ -48,6 +49,54 @@ theorem jsonLine_wellformed (c : Cfg) (e : Ent) (ctx : List (List Field)) (field
   have hok := entryMembers_ok c e ctx fields he hc hf
   exact ⟨entryMembers c e ctx fields, jsonLine_eq_render c e ctx fields he hc hf, hok.1,
     render_ge _ hok.1 hok.2, parse_render _ hok.1⟩
+
+/-- what the model assumes about `jsonEncoder`'s Add/Append surface, as a table: every `AddX(key, val)` is
+    `addKey(key); AppendX(val)` (so it is one `OC.prim`/`obj`/`arr` call of the model), or widens to AddInt64 /
+    AddUint64 with the plain conversion, AddBinary goes through base64 + AddString, AddReflected encodes BEFORE it
+    writes the key, OpenNamespace is key + `{` + counter; floats carry their own bit size, complex numbers their
+    precision.  `Gen.jsonAdd` is regenerated from zapcore/json_encoder.go on every run. -/
+def expectedJsonAdd : List (String × String × String × String) := [
+  ("AddArray", "keyAppend", "AppendArray", ""),
+  ("AddBinary", "binary", "AddString", ""),
+  ("AddBool", "keyAppend", "AppendBool", ""),
+  ("AddByteString", "keyAppend", "AppendByteString", ""),
+  ("AddComplex128", "keyAppend", "AppendComplex128", ""),
+  ("AddComplex64", "keyAppend", "AppendComplex64", ""),
+  ("AddDuration", "keyAppend", "AppendDuration", ""),
+  ("AddFloat32", "keyAppend", "AppendFloat32", ""),
+  ("AddFloat64", "keyAppend", "AppendFloat64", ""),
+  ("AddInt", "widen", "AddInt64", "int64"),
+  ("AddInt16", "widen", "AddInt64", "int64"),
+  ("AddInt32", "widen", "AddInt64", "int64"),
+  ("AddInt64", "keyAppend", "AppendInt64", ""),
+  ("AddInt8", "widen", "AddInt64", "int64"),
+  ("AddObject", "keyAppend", "AppendObject", ""),
+  ("AddReflected", "reflected", "", ""),
+  ("AddString", "keyAppend", "AppendString", ""),
+  ("AddTime", "keyAppend", "AppendTime", ""),
+  ("AddUint", "widen", "AddUint64", "uint64"),
+  ("AddUint16", "widen", "AddUint64", "uint64"),
+  ("AddUint32", "widen", "AddUint64", "uint64"),
+  ("AddUint64", "keyAppend", "AppendUint64", ""),
+  ("AddUint8", "widen", "AddUint64", "uint64"),
+  ("AddUintptr", "widen", "AddUint64", "uint64"),
+  ("AppendComplex128", "appendWiden", "appendComplex", "complex128(v);64"),
+  ("AppendComplex64", "appendWiden", "appendComplex", "complex128(v);32"),
+  ("AppendFloat32", "appendWiden", "appendFloat", "float64(v);32"),
+  ("AppendFloat64", "appendWiden", "appendFloat", "v;64"),
+  ("AppendInt", "appendWiden", "AppendInt64", "int64(v);"),
+  ("AppendInt16", "appendWiden", "AppendInt64", "int64(v);"),
+  ("AppendInt32", "appendWiden", "AppendInt64", "int64(v);"),
+  ("AppendInt8", "appendWiden", "AppendInt64", "int64(v);"),
+  ("AppendUint", "appendWiden", "AppendUint64", "uint64(v);"),
+  ("AppendUint16", "appendWiden", "AppendUint64", "uint64(v);"),
+  ("AppendUint32", "appendWiden", "AppendUint64", "uint64(v);"),
+  ("AppendUint8", "appendWiden", "AppendUint64", "uint64(v);"),
+  ("AppendUintptr", "appendWiden", "AppendUint64", "uint64(v);"),
+  ("OpenNamespace", "namespace", "", "")
+]
+
+theorem json_add_surface : Gen.jsonAdd = expectedJsonAdd := by decide
 
 /-- the line ending: SkipLineEnding wins; an empty LineEnding means one "\n" -/
 theorem ending_rule (c : Cfg) :
